@@ -315,7 +315,6 @@ package shmipc
 // --- handshake phase (blocking reads on the raw connection) ---
 //@ func blockReadFull
 //@   loop 0 invariant 0 <= readSize && readSize <= len(data)
-//@   modifies data[0:len(data)]
 
 //@ func blockWriteFull
 //@   loop 0 invariant 0 <= written && written <= len(data)
